@@ -24,8 +24,10 @@ func (g *pgen) pairs(s, t *Ty, depth int, seen map[string]bool, out *[]pairPos) 
 		return
 	}
 	seen[key] = true
-	*out = append(*out, pairPos{s, t, depth})
 	su, tu := g.p.under(s), g.p.under(t)
+	if su.K != "other" { // an interface-typed parameter would show its dynamic value to the function oracle
+		*out = append(*out, pairPos{s, t, depth})
+	}
 	switch {
 	case su.K == "ptr" && tu.K == "ptr":
 		g.pairs(su.Elem, tu.Elem, depth+1, seen, out)
@@ -198,6 +200,10 @@ func (g *pgen) decorate(c *ConvSpec) {
 		pre = append(pre, "wrapErrors")
 	}
 	var extLines []string
+	underlying := g.r.Intn(100) < w.underlying
+	if underlying {
+		pre = append(pre, "useUnderlyingTypeMethods")
+	}
 	for _, m := range c.Methods {
 		if m.Update {
 			continue
@@ -213,6 +219,9 @@ func (g *pgen) decorate(c *ConvSpec) {
 		g.pairs(m.Src, m.Tgt, 0, map[string]bool{}, &ps)
 		// extend functions
 		n := []int{0, 1, 1, 1, 2}[g.r.Intn(5)]
+		if g.r.Intn(100) < w.noExtend {
+			n = 0
+		}
 		for i := 0; i < n && len(ps) > 0; i++ {
 			pp := ps[g.r.Intn(len(ps))]
 			if pp.Depth == 0 && g.r.Intn(4) != 0 && len(ps) > 1 {
@@ -258,6 +267,35 @@ func (g *pgen) decorate(c *ConvSpec) {
 				f := g.newFunc(c, m, "Ext", pp.S, pp.T, true)
 				c.Extend = append(c.Extend, ExtSpec{Text: g.funcRef(f), Exact: f.Idx})
 				extLines = append(extLines, "extend "+g.funcRef(f))
+			}
+		}
+		// a function on the UNDERLYING types of a pair of named types, used through useUnderlyingTypeMethods
+		if underlying && len(ps) > 0 {
+			for try := 0; try < 6; try++ {
+				pp := ps[g.r.Intn(len(ps))]
+				if pp.S.K != "named" && pp.T.K != "named" {
+					continue
+				}
+				us, ut := pp.S, pp.T
+				switch g.r.Intn(3) {
+				case 0:
+					us = g.p.under(pp.S)
+				case 1:
+					ut = g.p.under(pp.T)
+				default:
+					us, ut = g.p.under(pp.S), g.p.under(pp.T)
+				}
+				if (us == pp.S && ut == pp.T) || us.K == "struct" || ut.K == "struct" {
+					continue
+				}
+				mm := m
+				if g.r.Intn(3) == 0 {
+					mm = nil // contexts / error result of the function are not handed to the method: generation must fail
+				}
+				f := g.newFunc(c, mm, "Und", us, ut, true)
+				c.Extend = append(c.Extend, ExtSpec{Text: g.funcRef(f), Exact: f.Idx})
+				extLines = append(extLines, "extend "+g.funcRef(f))
+				break
 			}
 		}
 		ts, ss := rootStruct(g.p, m.Tgt), rootStruct(g.p, m.Src)
@@ -310,10 +348,10 @@ func (g *pgen) decorate(c *ConvSpec) {
 		// default FUNC
 		if ts != nil && g.r.Intn(100) < w.defaults {
 			if w.defaults > 50 { // pointer-depth variations of the method itself
-				if g.p.under(m.Tgt).K != "ptr" && g.r.Intn(100) < 40 {
+				if g.p.under(m.Tgt).K != "ptr" && g.r.Intn(100) < 50 {
 					m.Tgt = tPtr(m.Tgt)
 				}
-				if g.p.under(m.Src).K != "ptr" && g.r.Intn(100) < 30 {
+				if g.p.under(m.Src).K != "ptr" && g.r.Intn(100) < 50 {
 					m.Src = tPtr(m.Src)
 				}
 			}
@@ -329,8 +367,11 @@ func (g *pgen) decorate(c *ConvSpec) {
 			f := g.newFunc(c, m, "Mk", src, rt, true)
 			c.FuncNames[g.funcRef(f)] = f.Idx
 			m.Lines = append(m.Lines, "default "+g.funcRef(f))
-			if g.r.Intn(100) < 45 {
+			if g.r.Intn(100) < 55 {
 				m.Lines = append(m.Lines, "default:update"+[]string{"", " yes"}[g.r.Intn(2)])
+				if g.r.Intn(100) < 60 { // applied on top of FUNC's result: zero-valued source fields may be skipped
+					m.Lines = append(m.Lines, []string{"update:ignoreZeroValueField", "update:ignoreZeroValueField:basic", "update:ignoreZeroValueField:struct", "update:ignoreZeroValueField:nillable"}[g.r.Intn(4)])
+				}
 			}
 		}
 		// a method of the source struct as field source
@@ -366,6 +407,13 @@ func (g *pgen) decorate(c *ConvSpec) {
 					if g.r.Intn(4) != 0 {
 						m.Lines = append(m.Lines, "matchIgnoreCase")
 					}
+				}
+				if fieldName == f.Name && g.r.Intn(100) < 50 { // the method's result goes through a map ... | FUNC
+					ff := g.newFunc(c, m, "MapF", f.Tgt, f.Tgt, true)
+					c.FuncNames[g.funcRef(ff)] = ff.Idx
+					fieldName = "Via" + f.Name
+					m.Lines = append(m.Lines, fmt.Sprintf("map %s %s | %s", f.Name, fieldName, g.funcRef(ff)))
+					m.Fields[fieldName] = &fieldSet{Source: f.Name}
 				}
 				ts.Fields = append(ts.Fields, Field{fieldName, f.Tgt})
 			}
